@@ -101,6 +101,18 @@ class Env:
 
         for name, (w, preds) in list(RU.rules.items()):
             RU.rules[name] = (mk(name, w), preds)
+        # rule-applicability analyses (the statement counts them next to rule applications and scorings): one per PartialParse._filter_rules call
+        from ctparse.partial_parse import PartialParse as PP
+
+        orig_filter = PP._filter_rules
+
+        def counting_filter(pp_self, rules):
+            c = env.clock
+            if c is not None and c.passed and env.after is not None:
+                env.after["analyses"] += 1
+            return orig_filter(pp_self, rules)
+
+        PP._filter_rules = counting_filter
         self.installed = True
 
     def scorer(self, inner):
@@ -161,7 +173,7 @@ class Env:
         self.nb_mode = mode.endswith("+nb")
         mode = mode.replace("+nb", "")
         self.clock = VClock(mode)
-        self.after = {"scorings": 0, "initial_scorings": 0, "rules": 0, "elements": set()}
+        self.after = {"scorings": 0, "initial_scorings": 0, "rules": 0, "elements": set(), "analyses": 0}
         if timeout not in (0, HUGE):
             # start_time is the first read (value 1); _tt raises when read - 1 > timeout
             self.clock.deadline = 1 + timeout
@@ -284,10 +296,12 @@ def plan(tier, seed):
     fresh = _fresh_baselines(cand, ts_s)
     combos = []
     too_big = []
-    budget = 25.0 if tier == "quick" else 1500.0  # CPU seconds per combination (N expiry points x cost of one run)
+    # a combination costs about N runs of N events each: bounded by the number of expiry points N (a count, not a measured time, so that
+    # the explored set is the same on every machine and under every load)
+    max_n = 800 if tier == "quick" else 6000
     for text, mode, depth in cand:
         b = fresh["%s|%s|%d" % (text, mode, depth)]
-        if b[1] * b[5] > budget:
+        if b[1] > max_n:
             too_big.append("{}|{}|depth{} (N={})".format(text, mode, depth, b[1]))
             continue
         _base[(mode, text, ts_s, depth)] = (b[0], b[1], b[2], b[3], b[4], b[5])
@@ -359,6 +373,13 @@ def run_case(case):
             )
         if st["scorings"] > R * L + 2 or st["rules"] > R * L:
             v.append(viol(dict(sig, kind="unbounded_work_after_deadline", phase="any"), "{}: {} scorings and {} rule invocations after the deadline (bound R*L = {})".format(desc, st["scorings"], st["rules"], R * L)))
+        if st["analyses"] > 1:
+            v.append(
+                viol(
+                    dict(sig, kind="unbounded_work_after_deadline", phase="applicability_analysis"),
+                    "{}: {} rule-applicability analyses were started after the deadline had passed ({} candidate sequences in total; at most one sequence may be in flight between two checks)".format(desc, st["analyses"], nseq),
+                )
+            )
         if st["elements"] > 1:
             v.append(
                 viol(
@@ -385,5 +406,5 @@ def run_case(case):
         "o": "cut" if cut else "complete",
         "nt": cut,
         "v": v[:4],
-        "st": {"runs": 2, "max_initial_scorings_after_deadline": st["initial_scorings"], "max_scorings_after_deadline": st["scorings"], "max_rule_invocations_after_deadline": st["rules"], "max_partial_parses_touched_after_deadline": st["elements"]},
+        "st": {"runs": 2, "max_initial_scorings_after_deadline": st["initial_scorings"], "max_scorings_after_deadline": st["scorings"], "max_rule_invocations_after_deadline": st["rules"], "max_partial_parses_touched_after_deadline": st["elements"], "max_applicability_analyses_after_deadline": st["analyses"]},
     }
